@@ -127,9 +127,9 @@ static bool legalMove(const Brd& b, int from, int to, int prom, bool& givesChk) 
 }
 
 // ------------------------------------------------------------------ symbolic position accepted by the engine
-alignas(64) static unsigned char posmem[sizeof(Position)];
+static RawBox<Position> posBox;
 static Position& buildPos(const Brd& b) {
-    Position& pos = *reinterpret_cast<Position*>(posmem);
+    Position& pos = posBox.obj;
     PositionBase& s = (PositionBase&)pos;
     for (int q = 0; q < 13; q++) s.pieceTypeBB_[q] = 0;
     s.whiteBB_ = s.blackBB_ = 0;
